@@ -864,6 +864,8 @@ theorem nodeS_bump (ns : NodeSt) (t : Nat) : NodeS ns (bumpTerm ns t) := by
   unfold bumpTerm; split <;> rfl
 @[simp] theorem bumpTerm_commit (ns : NodeSt) (t : Nat) : (bumpTerm ns t).commit = ns.commit := by
   unfold bumpTerm; split <;> rfl
+@[simp] theorem bumpTerm_applied (ns : NodeSt) (t : Nat) : (bumpTerm ns t).applied = ns.applied := by
+  unfold bumpTerm; split <;> rfl
 @[simp] theorem bumpTerm_matchIdx (ns : NodeSt) (t : Nat) : (bumpTerm ns t).matchIdx = ns.matchIdx := by
   unfold bumpTerm; split <;> rfl
 
